@@ -34,6 +34,9 @@ checks["C15"] = dict(cat="exploration", ref="§7 C15", engine="pure", technique=
 checks["C13"] = dict(cat="exploration", ref="§7 C13", engine="race", technique="deterministic simulation under the race detector: seeded statement-level schedules of 2-16 goroutines on one brand-new schema, with a scheduler whose hand-off is hidden from the detector (one-way happens-before edge to the scheduler only) and shims that keep real mutex edges; result equality against isolated calls",
    text="Trials race first-use paths (unit parser caches, lazily decoded defaults, sub-object default propagation, references) of freshly built, freshly rebuilt and struct-mapped schemas, of the package-level unit definitions (one trial per worker process) and of the step-call and ATP session simulations, in a -race build; a violation is a race report whose two accesses are owned by SDK functions, a result that differs from the same call in isolation, or a panic.",
    note="Trusted: Go's race detector; the happens-before neutrality of the scheduler is self-tested (TestDetectorStillSees: an unsynchronised lazy cache is reported, the same cache under the shim mutex is not). Seam choices come from per-goroutine PRNGs in these trials so that the shared tape is not a hidden synchronisation point. The detector reports a pair of stacks once per process; attribution uses the report counter around each trial.")
+checks["C19"] = dict(cat="exploration", ref="§7 C19", engine="codegen", technique="deterministic simulation of map iteration order in the code generator run as a subprocess: the generator built from the working tree gets a seam on its range-over-map sites, and each generated schema document is processed under natural, drawn, reversed and runtime orders, with and without the ignore argument",
+   text="Generated YAML schema documents (0-6 objects x 0-6 properties, every type ID, references) are fed to the real generator binary in a fresh directory; exit status and stderr decide totality for both argument forms, byte equality across iteration orders decides determinism, and the parsed output is compared with a model (one struct per non-ignored object, one JSON-tagged typed field per property).",
+   note="Trusted: the local map-order seam (2 range sites in gen.go, counted in the evidence), go/parser. Known finding (not repaired): type_id map is emitted as the Go keyword map and makes the generator panic; documents with map-typed properties are confined to the c19.mapkw batch so the rest of the space stays explored.")
 not_yet = {
 }
 na = {
@@ -75,6 +78,7 @@ m = {
    {"name": "steps", "path": "harness/engine_steps.go", "serves_properties": ["C11"], "kind_free_text": "concurrent CallStep/CallSignal on the real schema package under the seeded scheduler (no ATP)"},
    {"name": "pure", "path": "harness/engine_pure.go", "serves_properties": ["C12", "C15"], "kind_free_text": "single-goroutine history and map-order simulation on the real schema package"},
    {"name": "race", "path": "harness/engine_race.go", "serves_properties": ["C13"], "kind_free_text": "concurrent schema operations / step calls / ATP sessions in a -race build under the happens-before-neutral scheduler"},
+   {"name": "codegen", "path": "harness/engine_codegen.go", "serves_properties": ["C19"], "kind_free_text": "cmd/arcaflow-codegen built with a map-order seam and run as a subprocess per trial"},
    {"name": "server", "path": "harness/engine_server.go", "serves_properties": ["C07"], "kind_free_text": "real atp server vs scripted client with byte-offset fault injection on the client stream"},
    {"name": "session", "path": "harness/session.go", "serves_properties": ["C05", "C06"], "kind_free_text": "real atp client <-> real atp server over simulated pipes under the seeded scheduler (zzsimrt) inside a testing/synctest bubble"},
  ],
